@@ -549,6 +549,9 @@ class StmtMixin:
             ty = self.infer_field_type(cls, attr)
         if ty is None:
             self.unsupported(node, 'no declared type for field %s.%s' % (cls, attr))
+        if ty[0] == 'seq' and isinstance(v, VList):
+            # a list stored into a field declared as an immutable sequence (option views: the setter copies the items)
+            v = VTuple([]) if (getattr(v, 'pending', False) or v.e is None) else self.list_as_seq(st, v)
         try:
             self.write_field(st, base, attr, ty, v)
         except Unsupported as e:
